@@ -34,7 +34,9 @@ ASSUMPTIONS = [
 # errorXX / rstackXX: hex code; 0x81 and 0x04 are codes without a name in bellows' enum
 KINDS = ["error51", "error80", "error81", "rstack02", "rstack03", "rstack04", "silent", "nakflap", "lost", "eof", "close"]
 FRAME_KINDS = [k for k in KINDS if k.startswith(("error", "rstack"))]
-BOUND = 10 + 5 * 3.2 + 0.1
+from vlib import cfg
+
+BOUND = cfg.cmd_timeout() + cfg.ash_attempts() * 3.2 + 0.1  # command timeout + link timeouts (attempts x the ASH maximum)
 WORKLOADS = ["idle", "one", "queue", "reset", "reset+cmds", "startup"]
 
 
